@@ -419,16 +419,72 @@ func (c *Ctx) ipReplay(lines []string) {
 	}
 }
 
+// ipSentinel: the options of connections to the sentinels are derived by the real newSentinelOpt
+// for every combination of data-node credentials x sentinel credentials (x client names); the real
+// _newPipe then sets such a connection up against a fake sentinel that shares the ACL users of the
+// data nodes, and the session the fake sees is judged: the authenticated user is Sentinel.Username
+// (the default user, without any AUTH, when both sentinel credential fields are empty) and NEVER the
+// data-node user; the data-node password never appears on the sentinel connection.
 func (c *Ctx) ipSentinel() {
-	for i := 0; i < 64; i++ {
-		pick := func(vals ...string) string { return vals[c.Rng.IntN(len(vals))] }
-		o := rueidis.ClientOption{Username: pick("", "u1"), Password: pick("", "p1"), ClientName: pick("", "n1"), SelectDB: c.Rng.IntN(3)}
-		o.Sentinel.Username, o.Sentinel.Password, o.Sentinel.ClientName = pick("", "su"), pick("", "sp"), pick("", "sn")
+	ctx := context.Background()
+	for m := 0; m < 64; m++ {
+		bit := func(i int, v string) string {
+			if m&(1<<i) != 0 {
+				return v
+			}
+			return ""
+		}
+		o := rueidis.ClientOption{Username: bit(0, "app"), Password: bit(1, "nodepw"), ClientName: bit(4, "n1"), SelectDB: m % 3}
+		o.Sentinel.Username, o.Sentinel.Password, o.Sentinel.ClientName = bit(2, "sen"), bit(3, "senpw"), bit(5, "sn")
 		o.Sentinel.MasterSet = "ms"
-		s := rueidis.VerifSentinelOpt(o)
-		c.Emit(fmt.Sprintf("sopt %s %s %s %d %s %s %s", dash(o.Username), dash(o.Password), dash(o.ClientName), o.SelectDB,
-			dash(o.Sentinel.Username), dash(o.Sentinel.Password), dash(o.Sentinel.ClientName)),
-			fmt.Sprintf("%s %s %s %d %v", dash(s.Username), dash(s.Password), dash(s.ClientName), s.SelectDB, s.AuthCredentialsFn == nil), true)
+		so := rueidis.VerifSentinelOpt(o)
+		op := fmt.Sprintf("sopt %s %s %s %d %s %s %s", dash(o.Username), dash(o.Password), dash(o.ClientName), o.SelectDB,
+			dash(o.Sentinel.Username), dash(o.Sentinel.Password), dash(o.Sentinel.ClientName))
+		ans := fmt.Sprintf("%s %s %s %d %v", dash(so.Username), dash(so.Password), dash(so.ClientName), so.SelectDB, so.AuthCredentialsFn == nil)
+		c.Emit(op, ans, true)
+		c.Emit("!"+op, ans, false)
+		usedNode := (so.Username != o.Sentinel.Username && so.Username == o.Username) || (so.Password != o.Sentinel.Password && so.Password == o.Password)
+		if usedNode {
+			c.Fail("init:sentinel-connection-used-node-credentials", op, fmt.Sprintf("newSentinelOpt gave the sentinel connection user %q / password %q: the data-node credentials instead of the sentinel ones (%q / %q)", so.Username, so.Password, o.Sentinel.Username, o.Sentinel.Password))
+		}
+		// end to end: set the sentinel connection up against a fake sentinel
+		users := map[string]string{}
+		if o.Username != "" {
+			users[o.Username] = o.Password // the sentinel shares the ACL of the data nodes
+		}
+		if o.Sentinel.Username != "" {
+			users[o.Sentinel.Username] = o.Sentinel.Password
+		} else if o.Sentinel.Password != "" {
+			users["default"] = o.Sentinel.Password
+		}
+		srv := fakeredis.New(fakeredis.Options{Users: users, Role: "sentinel"})
+		so.DialCtxFn, so.ReadBufferEachConn, so.WriteBufferEachConn, so.RingScaleEachConn, so.DisableCache = srv.Dial, 4096, 4096, 4, true
+		so.Dialer.Timeout = 2 * time.Second
+		state := "failed"
+		vp, err := rueidis.VerifNewPipe(ctx, func(ctx context.Context) (net.Conn, error) { return srv.Dial(ctx, "sentinel:1", nil, nil) }, &so, false)
+		if err == nil {
+			if ci, ok := srv.Conn(1); ok {
+				state = fmt.Sprintf("user=%s db=%d name=%s", ci.User, ci.DB, dash(ci.Name))
+			}
+			vp.Close()
+		}
+		leaked := false
+		for _, e := range srv.ConnLog(1) {
+			for _, w := range e.Argv {
+				if o.Password != "" && w == o.Password {
+					leaked = true
+				}
+			}
+		}
+		c.Emit("!sstate "+strings.TrimPrefix(op, "sopt "), fmt.Sprintf("%s leaked=%s", state, b01(leaked)), false)
+		want := o.Sentinel.Username
+		if want == "" {
+			want = "default"
+		}
+		if leaked || (err == nil && state != fmt.Sprintf("user=%s db=0 name=%s", want, dash(o.Sentinel.ClientName))) || err != nil {
+			c.Fail("init:sentinel-connection-used-node-credentials", op, fmt.Sprintf("sentinel connection: %s, node password on the wire: %v (want user=%s, db 0, the sentinel client name)", state, leaked, want))
+		}
+		srv.Close()
 	}
 }
 
